@@ -596,7 +596,8 @@ where
 
     #[inline(always)]
     fn size_hint(&self) -> (usize, Option<usize>) {
-        (self.wm.len(), Some(self.wm.len()))
+        let n = self.wm.len() - self.pos;
+        (n, Some(n))
     }
 }
 
